@@ -272,3 +272,32 @@ package interp
 //@   ensures a-plain-value-is-returned-as-it-is: !isWrapper(rvIface(old(v))) ==> r == old(v)
 //@   loop 1
 //@   invariant plain-value-untouched: !isWrapper(rvIface(old(v))) ==> v == old(v)
+
+// A symbol of a binary package (cfg, selector case): a node with a valid rval is a compile-time constant for
+// the rest of cfg (constant folding of operators, conditions known at compile time, values captured when the
+// closure is generated).  A VARIABLE supplied by the host — bound by address, so that the script and the host
+// see each other's writes — must therefore not get one: its value is only known when the statement runs.
+//@ trusted func isBinType(v) (r)
+//@   pure
+//@ lit Interpreter.cfg if:binPkg () ()
+//@   props C07
+//@   opt safety = off
+//@   opt opaque-calls = *
+//@   opt opaque-havoc = none
+//@   requires [assume] !n.rval.IsValid()
+//@   requires [assume] n != nil && interp != nil && interp.binPkg != nil && len(n.child) >= 2 && n.child[0] != nil && n.child[1] != nil && n.child[0].sym != nil && n.child[0].sym.typ != nil && n.child[0] != n && n.child[1] != n
+//@   ensures [local:s;local:ok] a-host-variable-is-not-a-compile-time-constant: ok && !isBinType(s) && s.CanAddr() ==> n.rval == old(n.rval) && n.val == s && n.action == aGetSym
+//@   ensures [local:s;local:ok] a-host-constant-or-function-keeps-its-value: ok && !isBinType(s) && !s.CanAddr() ==> n.rval == s
+
+// The generator of such a node: when the statement runs, the node's frame location is made to designate
+// the host variable itself (not a copy of its value): reads see what the host wrote, and whatever stores
+// through the location reaches the host.
+//@ func getBinVar(n)
+//@   props C07
+//@   opt gen = true
+//@   opt safety = off
+//@   opt opaque-calls = *
+//@   opt opaque-havoc = none
+//@   exec (f) (ret)
+//@   exec-ensures the-location-designates-the-host-variable-itself: getFrame(f, l).data[i] == v
+//@   exec-ensures continues: ret == next
